@@ -1029,8 +1029,14 @@ func c10Flows(jobs *c10Jobs, run *vfRun, w *vfWorld, st *c10Stream) {
 		if err != nil {
 			run.T.Fatalf("[flow %s] %v", fc.label, err)
 		}
+		var p2 *vfProxy
+		if fc.store == "redis" {
+			if p2, err = w.NewProxy(append(fc.flags, "--cookie-refresh=1m", "--pass-access-token=true", "--insecure-oidc-skip-nonce=true")...); err != nil {
+				run.T.Fatalf("[flow %s] second instance: %v", fc.label, err)
+			}
+		}
 		jobs.each(len(flows), func(i int) {
-			c10OneFlow(run, w, p, tab, fc.label, fc.store, flows[i], atomic.AddInt64(&flowNo, 1))
+			c10OneFlow(run, w, p, p2, tab, fc.label, fc.store, flows[i], atomic.AddInt64(&flowNo, 1))
 		})
 	}
 }
@@ -1044,7 +1050,7 @@ func c10SessionCookies(j *vfJar, host string) (n int) {
 	return
 }
 
-func c10OneFlow(run *vfRun, w *vfWorld, p *vfProxy, tab *c10FlowTable, label, store string, pads []int, no int64) {
+func c10OneFlow(run *vfRun, w *vfWorld, p, p2 *vfProxy, tab *c10FlowTable, label, store string, pads []int, no int64) {
 	sub := fmt.Sprintf("c10flow-%d", no)
 	tab.mu.Lock()
 	tab.pads[sub] = pads
@@ -1079,6 +1085,21 @@ func c10OneFlow(run *vfRun, w *vfWorld, p *vfProxy, tab *c10FlowTable, label, st
 		if g >= len(gens) {
 			run.Inconclusive("flow: issuance not recorded")
 			return false
+		}
+		if p2 != nil {
+			// server-side store: a second instance sharing the store serves the browser's next request — it loaded the
+			// previous session a moment ago, and must now load what the first instance saved
+			var info2 struct {
+				Email string `json:"email"`
+			}
+			ui2 := b.Get(p2, "/oauth2/userinfo")
+			_ = json.Unmarshal(ui2.Body, &info2)
+			run.Count("flow_loads_on_second_instance", 1)
+			if ui2.Code != 200 || info2.Email != gens[g].Email {
+				trace = append(trace, fmt.Sprintf("%s: second instance userinfo %d email=%s", what, ui2.Code, info2.Email))
+				fail("c10:flow-stale-session-on-second-instance", fmt.Sprintf("%s: a second instance sharing the Redis store does not load the session of issuance %d (%s) that the first instance saved: userinfo %d, e-mail %q", what, g, gens[g].Email, ui2.Code, info2.Email))
+				return false
+			}
 		}
 		ui := b.Get(p, "/oauth2/userinfo")
 		var info struct {
@@ -1139,12 +1160,18 @@ func c10OneFlow(run *vfRun, w *vfWorld, p *vfProxy, tab *c10FlowTable, label, st
 			return
 		}
 	}
+	preSignOut := vfCookieHeader(b.Jar.For(b.Host, "/", false))
 	so := b.Get(p, "/oauth2/sign_out")
 	ui := b.Get(p, "/oauth2/userinfo")
 	trace = append(trace, fmt.Sprintf("sign_out %d -> userinfo %d", so.Code, ui.Code))
 	run.Eval(fmt.Sprintf("flow|%s|%d->0|sign-out", store, prevParts))
 	if so.Code == 302 && ui.Code == 200 {
 		fail("c10:session-loads-after-clear", "a session still loads after sign-out")
+	}
+	if p2 != nil && so.Code == 302 && preSignOut != "" {
+		if ui2 := p2.Do(vfGET("/oauth2/userinfo", "Cookie", preSignOut).WithHost(b.Host)); ui2.Code == 200 {
+			fail("c10:session-loads-after-clear", "a session still loads on a second instance sharing the store after sign-out")
+		}
 	}
 	run.Count("flows_completed", 1)
 	run.SampleEvery(501, func() interface{} { return map[string]interface{}{"flow": label, "pads": pads, "trace": trace} })
